@@ -17,6 +17,20 @@ pub fn dg(label: &str) -> Hash {
 
 /// Declared settlement byte budget of both requests (the "declared bounds" of the property).
 pub const BUDGET: u64 = 16;
+/// The budget of the pass that is running (the main passes use [`BUDGET`]; the ceiling pass uses the
+/// v1 ceiling `MAX_EXTERNAL_ACTION_SETTLEMENT_BYTES_V1`).  Passes run one after the other.
+static BUDGET_NOW: std::sync::atomic::AtomicU64 = std::sync::atomic::AtomicU64::new(BUDGET);
+pub fn budget() -> u64 {
+    BUDGET_NOW.load(std::sync::atomic::Ordering::Relaxed)
+}
+pub fn set_budget(b: u64) {
+    BUDGET_NOW.store(b, std::sync::atomic::Ordering::Relaxed);
+}
+/// Exactly `budget()` bytes: the label truncated, or padded with a fill byte.
+fn fit(mut v: Vec<u8>) -> Vec<u8> {
+    v.resize(budget() as usize, 0x5a);
+    v
+}
 
 pub struct Fx {
     pub reqs: [ExternalActionRequestV1; 2],
@@ -40,7 +54,7 @@ fn mk_request(op: &str, label: &str) -> ExternalActionRequestV1 {
         dg("c17.scope"),
         dg(&format!("basis:{label}")),
         ExternalActionBudgetV1 {
-            max_settlement_bytes: BUDGET,
+            max_settlement_bytes: budget(),
             max_attempts: 1,
         },
         dg(&format!("input:{label}")),
@@ -128,14 +142,10 @@ pub fn kind_of(code: u8) -> ExternalActionSettlementKindV1 {
 /// Canonical result bytes of the valid settlement of request `r` with kind `code`: exactly BUDGET
 /// bytes, so the admitted case sits on the boundary of the declared bound.
 pub fn ok_bytes(r: u8, code: u8) -> Vec<u8> {
-    let mut v = format!("r{r}k{code}:result-okokokok").into_bytes();
-    v.truncate(BUDGET as usize);
-    v
+    fit(format!("r{r}k{code}:result-okokokok").into_bytes())
 }
 pub fn different_bytes(r: u8, code: u8) -> Vec<u8> {
-    let mut v = format!("r{r}k{code}:DIFFERENT-BYTES").into_bytes();
-    v.truncate(BUDGET as usize);
-    v
+    fit(format!("r{r}k{code}:DIFFERENT-BYTES").into_bytes())
 }
 pub fn oversize_bytes(r: u8, code: u8) -> Vec<u8> {
     let mut v = ok_bytes(r, code);
@@ -317,6 +327,20 @@ pub fn plain_menu() -> Vec<Op> {
     v.push(Op::Observe);
     v.push(Op::CrashRecover);
     v
+}
+
+/// Alphabet of the ceiling pass (request budget = the v1 ceiling, valid result exactly that long):
+/// one request id, the lawful path, the oversize refusal, retries and crash-recover.
+pub fn ceiling_menu() -> Vec<Op> {
+    vec![
+        Op::Request(0),
+        Op::Claim(0, ClaimArg::OkA),
+        Op::Settle(0, 1, SettleArg::Ok),
+        Op::Settle(0, 1, SettleArg::Oversize),
+        Op::Retry(0, RetryArg::Same),
+        Op::Retry(0, RetryArg::Different),
+        Op::CrashRecover,
+    ]
 }
 
 /// Reduced alphabet for the deepest thorough phase: every op kind, the lawful classes, one refusal
